@@ -3,7 +3,8 @@ package amsim
 import (
 	"context"
 	"fmt"
-		"strings"
+	"os"
+	"strings"
 	"time"
 
 	"github.com/hashicorp/memberlist"
@@ -32,8 +33,8 @@ type foreignDelegate struct {
 	state []byte
 }
 
-func (d *foreignDelegate) NodeMeta(int) []byte     { return []byte{} }
-func (d *foreignDelegate) NotifyMsg([]byte)        {}
+func (d *foreignDelegate) NodeMeta(int) []byte           { return []byte{} }
+func (d *foreignDelegate) NotifyMsg([]byte)              {}
 func (d *foreignDelegate) MergeRemoteState([]byte, bool) {}
 func (d *foreignDelegate) LocalState(bool) []byte {
 	d.w.mu.Lock()
@@ -86,6 +87,9 @@ func (w *World) startForeign() error {
 	cfg.TCPTimeout = 2*time.Second + 47
 	cfg.Transport = w.Net.NewTransport("zz-foreign", addr)
 	cfg.LogOutput = discard{}
+	if os.Getenv("VERIF_LOG") != "" {
+		cfg.LogOutput = TraceBuf
+	}
 	ml, err := memberlist.Create(cfg)
 	if err != nil {
 		return err
@@ -197,8 +201,8 @@ func init() {
 }
 
 type c19View struct {
-	Sils map[string]time.Time // id -> updatedAt
-	Nf   map[string]time.Time // key -> timestamp
+	Sils    map[string]time.Time // id -> updatedAt
+	Nf      map[string]time.Time // key -> timestamp
 	Members int
 }
 
@@ -590,9 +594,9 @@ func c19Check(p *Plan, r *RunResult) *Verdict {
 func init() {
 	Register(&Prop{
 		ID: "C19", Level: "exploration", Gen: c19Gen, Check: c19Check,
-		Rule: "seeded run of 2-4 real clustered instances (real cluster.Peer, delegate, channel and memberlist over the simulated network), optional late joiner, 3-10 silences with comments of 5-5000 bytes (around the 700-byte gossip/reliable threshold and beyond the 1400-byte packet), bursts of two updates within one gossip interval, expirations, alerts posted to every instance (notification-log gossip from real flushes), packet drop 0-30 %, duplication 0-20 %, jitter, 0-2 partitions until a chosen instant (a third of the runs are fault-free), push/pull every 20 s/45 s/5 min, and in half of the runs a foreign memberlist node offering garbage, unknown keys, truncated and malformed payloads, duplicates and full states that mix malformed with valid parts. Views of every instance are recorded 10 s after each update, 8 s after a late join, at random instants and at the end (two push/pull intervals + 40 s after faults stop). Non-trivial: a view was judged; distinct by abstract trace incl. net-fault counts.",
-		Real: []string{"app.New wiring with clustering", "cluster.Peer, delegate, Channel (gossip queue / oversized reliable sends)", "hashicorp/memberlist (probe, gossip, push/pull, TCP user messages; math/rand aliased to the order-insensitive source)", "silence and nflog Merge/MarshalBinary", "dispatch + notify pipeline incl. cluster wait stages"},
-		Stub: []string{"clock (synctest)", "network: simnet transport (non-blocking, per-packet drop/dup/delay, partitions, net.Pipe streams)", "receiver endpoint", "snapshot disk (simfs)", "foreign peer: bare memberlist node owned by the simulator"},
+		Rule:        "seeded run of 2-4 real clustered instances (real cluster.Peer, delegate, channel and memberlist over the simulated network), optional late joiner, 3-10 silences with comments of 5-5000 bytes (around the 700-byte gossip/reliable threshold and beyond the 1400-byte packet), bursts of two updates within one gossip interval, expirations, alerts posted to every instance (notification-log gossip from real flushes), packet drop 0-30 %, duplication 0-20 %, jitter, 0-2 partitions until a chosen instant (a third of the runs are fault-free), push/pull every 20 s/45 s/5 min, and in half of the runs a foreign memberlist node offering garbage, unknown keys, truncated and malformed payloads, duplicates and full states that mix malformed with valid parts. Views of every instance are recorded 10 s after each update, 8 s after a late join, at random instants and at the end (two push/pull intervals + 40 s after faults stop). Non-trivial: a view was judged; distinct by abstract trace incl. net-fault counts.",
+		Real:        []string{"app.New wiring with clustering", "cluster.Peer, delegate, Channel (gossip queue / oversized reliable sends)", "hashicorp/memberlist (probe, gossip, push/pull, TCP user messages; math/rand aliased to the order-insensitive source)", "silence and nflog Merge/MarshalBinary", "dispatch + notify pipeline incl. cluster wait stages"},
+		Stub:        []string{"clock (synctest)", "network: simnet transport (non-blocking, per-packet drop/dup/delay, partitions, net.Pipe streams)", "receiver endpoint", "snapshot disk (simfs)", "foreign peer: bare memberlist node owned by the simulator"},
 		Assumptions: []string{"one shared clock for all instances", "after faults stop, two push/pull intervals + 40 s are allowed for convergence; in a fault-free phase 10 s for gossip"},
 	})
 }
